@@ -477,7 +477,13 @@ def specs(draw):
         nfree = sum(1 for lv in b["levels"] if lv["kind"] == "free")
         if nfree:
             b["side_branch"] = False if b.get("side_branch") and nfree else b.get("side_branch", False)
-        b["joined"] = [i for i in b.get("joined", []) if 0 < i < len(b["levels"]) and b["levels"][i]["kind"] != "free" and b["levels"][i - 1]["kind"] != "free"]
+        # a joined folder name ('{a}<sep>{b}') may end in a free value when the value before it is closed or digits (unique split)
+        b["joined"] = [i for i in b.get("joined", []) if 0 < i < len(b["levels"]) and b["levels"][i - 1]["kind"] != "free"]
+        if not b["joined"] and chance(12):
+            cand = [i for i in range(1, len(b["levels"])) if b["levels"][i]["kind"] == "free" and b["levels"][i - 1]["kind"] != "free"]
+            if cand:
+                b["joined"] = [cand[0]]
+                dims.append("folder-joining-a-free-value")
         for lv in b["levels"]:
             lv.pop("constants", None)
         if b["levels"] and b["levels"][0]["kind"] == "closed":
@@ -643,7 +649,10 @@ def canonical_specs():
         s["basetypes"][1]["levels"].insert(2, {"key": "dept", "kind": "closed", "values": ["k1", "k2"]})
         s["basetypes"][1]["joined"] = [1]
     variant("level-inserted", inserted)
-    variant("states", lambda s: s.update({"states": {"wip": "W", "pub": "P", "r": "REVIEW"}}))
+    def states(s):
+        s.update({"states": {"wip": "W", "pub": "P", "r": "REVIEW"}})
+        s["basetypes"][0]["joined"] = [1]      # asset folders named '<assettype>_<asset>' (as the demo names its shot folders)
+    variant("states", states)
     variant("version-pattern", lambda s: s.update({"version": ["", 2]}))
     variant("projects", lambda s: s.update({"projects": {"hamlet": "HAMLET", "othello": "OTH"}}))
 
